@@ -202,30 +202,9 @@ def check(ctx):
             and norm(body[0].value) == f"{norm(k)}({f.vararg})"
         ctx.ob("C02.B3", f"{f.short}~{norm(k)}", ok, loc(f), f"{f.name}(*args) returns {norm(k)}(args)" if ok else
                f"{f.name} is not `def g(*args): return {norm(k)}(args)`: a rebuilt {norm(k)} differs from direct evaluation", norm(body[0])[:80] if body else "")
-    # ---------------------------------------------------------------- B4
-    br = rr.bound_run
-    s_ = br.pos_params[0]
-    keep = global_names(m, br)
-    txt = canon(real_body(br.node), keep)
-    ok = txt == canon([f"args = [arg.value for arg in {s_}.args]", f"kwargs = {{name: arg.value for name, arg in {s_}.kwargs.items()}}",
-                       f"{s_}.result.value = {br.pos_params[2]}({br.pos_params[1]})(*args, **kwargs)"], keep)
-    ctx.ob("C02.B4", f"{br.short}/binding", ok, loc(br), "slots are read in order at call time and the result goes to the call's own slot" if ok else
-           "BoundCall.run no longer reads the argument slots in order / stores into its own slot", " ; ".join(txt)[:160])
-    cbc = [f for f in m.funcs.values() if f.name == "_create_bound_call"]
-    if len(cbc) == 1:
-        f = cbc[0]
-        keep = global_names(m, f)
-        g_, c_, rl_ = f.pos_params[0], f.pos_params[1], f.pos_params[2]
-        t = canon(real_body(f.node), keep)
-        ok = t == canon([f"args, kwargs = get_argument_nodes({g_}, {c_})", f"args = [{rl_}[predecessor] for predecessor in args]",
-                         f"kwargs = {{name: {rl_}[predecessor] for name, predecessor in kwargs.items()}}", f"result = {rl_}[{c_}]",
-                         "return BoundCall(args, kwargs, result)"], keep)
-        ctx.ob("C02.B4", f"{f.short}/element-wise", ok, loc(f), "the reader's lists are mapped through the slot table element-wise" if ok else
-               "bound-call creation no longer maps the reader's lists element-wise through the slot table")
-    bc = m.one_class("BoundCall", "B4")
-    init = bc.methods["__init__"]
-    ok = [norm(x) for x in real_body(init.node)] == ["self.args = args", "self.kwargs = kwargs", "self.result = result"] and init.pos_params[1:] == ["args", "kwargs", "result"]
-    ctx.ob("C02.B4", "BoundCall.__init__/fields", ok, loc(init), "constructor argument order matches field assignment")
+    # ---------------------------------------------------------------- B4  (evaluated on a symbolic plan; no text is compared)
+    from .evalrules import rule_run_callback
+    ctx.run(lambda c_: rule_run_callback(c_, rr, rid_binding="C02.B4"))
     from .extra import rule_result_slots, rule_kwargs_positional_only
     ctx.run(rule_result_slots, "C02.B4")
     ctx.run(rule_kwargs_positional_only, "C02.B7")
